@@ -175,18 +175,23 @@ Definition canon_cmp (o : cop) (a b : term) : term :=
   | _ => TCmp o a b
   end.
 
+(* a sum of 0/1 values plus a positive constant is positive, hence non-zero *)
+Definition always_pos (t : term) : bool :=
+  let '(l, c) := summands t in
+  (1 <=? c) && (c <? 1000000) && forallb is01 l && (Z.of_nat (length l) <? 1000).
+
 Definition mk_not (t : term) : term :=
   match t with
   | TC z => tc01 (wrap32 z =? 0)
   | TCmp o a b => canon_cmp (negc o) a b
   | TNot a => if is01 a then a else canon_cmp CNe a (TC 0)
-  | _ => if is01 t then TNot t else TCmp CEq t (TC 0)
+  | _ => if is01 t then TNot t else if always_pos t then TC 0 else TCmp CEq t (TC 0)
   end.
 
 Definition mk_nz (t : term) : term :=
   match t with
   | TC z => tc01 (negb (wrap32 z =? 0))
-  | _ => if is01 t then t else canon_cmp CNe t (TC 0)
+  | _ => if is01 t then t else if always_pos t then TC 1 else canon_cmp CNe t (TC 0)
   end.
 
 Fixpoint conjuncts (t : term) : list term :=
@@ -247,6 +252,7 @@ Definition mk_cmp (o : cop) (a b : term) : term :=
         then TC 1
         else canon_cmp o a b
   | None, None =>
+      if term_eqb a b then tc01 (cmp o 0 0) else   (* x CMP x *)
       match o with
       | CGt => TCmp CLt b a
       | CGe => TCmp CLe b a
@@ -433,11 +439,33 @@ Proof.
     rewrite <- negc_sound; reflexivity.
 Qed.
 
+Lemma sum01_bounds l : forallb is01 l = true -> 0 <= sum_eval l <= Z.of_nat (length l).
+Proof.
+  induction l as [|t l IH]; cbn [forallb sum_eval length]; intros E; [lia|].
+  apply andb_true_iff in E as [E1 E2]. specialize (IH E2).
+  destruct (is01_sound t E1) as [H|H]; rewrite H; lia.
+Qed.
+
+Lemma always_pos_sound t : always_pos t = true -> nz (ev t) = true.
+Proof.
+  unfold always_pos. destruct (summands t) as [l c] eqn:Es. intros G.
+  repeat (apply andb_true_iff in G as [G ?]).
+  apply Z.leb_le in G.
+  match goal with H : (c <? 1000000) = true |- _ => apply Z.ltb_lt in H; rename H into C2 end.
+  match goal with H : forallb is01 l = true |- _ => rename H into F end.
+  match goal with H : (_ <? 1000) = true |- _ => apply Z.ltb_lt in H; rename H into L end.
+  rewrite (summands_sound _ _ _ Es). pose proof (sum01_bounds l F) as B.
+  rewrite wrap32_small by (unfold in32, two31; lia).
+  unfold nz. apply negb_true_iff, Z.eqb_neq. lia.
+Qed.
+
 Lemma mk_not_sound t : ev (mk_not t) = b2z (negb (nz (ev t))).
 Proof.
-  assert (G : forall u, ev (if is01 u then TNot u else TCmp CEq u (TC 0)) = b2z (negb (nz (ev u)))).
+  assert (G : forall u, ev (if is01 u then TNot u else if always_pos u then TC 0 else TCmp CEq u (TC 0)) = b2z (negb (nz (ev u)))).
   { intros u. destruct (is01 u); cbn [eval cmp]; [reflexivity|].
-    unfold nz. rewrite negb_involutive. reflexivity. }
+    destruct (always_pos u) eqn:P.
+    - rewrite (always_pos_sound u P). reflexivity.
+    - cbn [eval cmp]. unfold nz. rewrite negb_involutive. reflexivity. }
   destruct t; try apply G.
   - cbn [mk_not eval]. rewrite tc01_eval. unfold nz. rewrite negb_involutive. reflexivity.
   - cbn [mk_not eval]. rewrite canon_cmp_sound, negc_sound, nz_b2z_negb. reflexivity.
@@ -448,8 +476,9 @@ Qed.
 
 Lemma mk_nz_sound t : ev (mk_nz t) = b2z (nz (ev t)).
 Proof.
-  assert (G : forall u, ev (if is01 u then u else canon_cmp CNe u (TC 0)) = b2z (nz (ev u))).
-  { intros u. destruct (is01 u) eqn:E; [apply is01_b2z, E | rewrite canon_cmp_sound; reflexivity]. }
+  assert (G : forall u, ev (if is01 u then u else if always_pos u then TC 1 else canon_cmp CNe u (TC 0)) = b2z (nz (ev u))).
+  { intros u. destruct (is01 u) eqn:E; [apply is01_b2z, E |].
+    destruct (always_pos u) eqn:P; [rewrite (always_pos_sound u P); reflexivity | rewrite canon_cmp_sound; reflexivity]. }
   destruct t; try apply G.
   cbn [mk_nz eval]. rewrite tc01_eval. reflexivity.
 Qed.
@@ -600,12 +629,6 @@ Proof.
 Qed.
 
 (* a sum of 0/1 values is positive (equivalently non-zero) iff one of them is 1 *)
-Lemma sum01_bounds l : forallb is01 l = true -> 0 <= sum_eval l <= Z.of_nat (length l).
-Proof.
-  induction l as [|t l IH]; cbn [forallb sum_eval length]; intros E; [lia|].
-  apply andb_true_iff in E as [E1 E2]. specialize (IH E2).
-  destruct (is01_sound t E1) as [H|H]; rewrite H; lia.
-Qed.
 Lemma sum01_pos l : forallb is01 l = true -> (0 <? sum_eval l) = existsb tru l.
 Proof.
   induction l as [|t l IH]; cbn [forallb sum_eval existsb]; intros E; [reflexivity|].
@@ -656,7 +679,10 @@ Proof.
            ++ replace (sum_eval l + c >? 0) with true; [reflexivity|]. symmetry. rewrite Z.gtb_ltb. apply Z.ltb_lt. lia.
            ++ replace (sum_eval l + c =? 0) with false; [reflexivity|]. symmetry. apply Z.eqb_neq. lia.
         -- rewrite canon_cmp_sound, (as_const_sound _ _ Eb). reflexivity.
-  - destruct o; try reflexivity.
+  - destruct (term_eqb a b) eqn:Eab.
+    { apply term_eqb_eq in Eab. subst b. rewrite tc01_eval. f_equal.
+      destruct o; cbn [cmp]; rewrite ?Z.ltb_irrefl, ?Z.gtb_ltb, ?Z.ltb_irrefl, ?Z.eqb_refl, ?Z.geb_leb, ?Z.leb_refl; reflexivity. }
+    destruct o; try reflexivity.
     + cbn [eval]. rewrite <- (mirror_sound CGt). reflexivity.
     + destruct (tleb a b); rewrite canon_cmp_sound; cbn [cmp]; [reflexivity | rewrite Z.eqb_sym; reflexivity].
     + cbn [eval]. rewrite <- (mirror_sound CGe). reflexivity.
